@@ -11,7 +11,6 @@ ASSUME = [
     "'sorted' is accepted in byte order of the joined strings or in walk order",
     "FollowLinks runs in a child process with a 4 s watchdog and a 64 MiB stack limit: a timeout or a crash of the child (stack overflow) counts as non-termination of the case in flight",
     "end to end: a real transfer with the requests as follow-paths; every literal request that resolves inside the source must resolve to the same path, entry type and bytes in the destination (chroot-style resolver of spec/Trees.tla on both snapshots)",
-    "explanation test for the lexical-dot-dot finding: a request (or an earlier one of the list) traverses a symlink whose target has a '..' right after a component that is itself a symlink",
     "explanation test for the known finding: a final location that is not covered although the request traverses a symlink that an earlier request already traversed is classified 'explainedByLinkMemoisation'",
 ]
 EXPL = {"C18.finalLocationNotCovered/explainedByLinkMemoisation", "C18.rootReachedButListNotEmpty/explainedByLinkMemoisation",
@@ -20,16 +19,10 @@ EXPL = {"C18.finalLocationNotCovered/explainedByLinkMemoisation", "C18.rootReach
 OVERDIR = "C18.wildcardExpansionResolvesDifferentlyAfterTransfer/explainedByWildcardOverDirectory"
 
 
-LEX = {"C18.finalLocationNotCovered/explainedByLexicalDotDot", "C18.rootReachedButListNotEmpty/explainedByLexicalDotDot",
-       "C18.traversedSymlinkNotCovered/explainedByLexicalDotDot", "C18.emptyListAlthoughRootNotReached/explainedByLexicalDotDot"}
-
-
 def _sig(evs, clauses):
     cl = set(clauses)
     if cl == {OVERDIR}:
         return "follow:wildcard-over-directory-keeps-pattern"
-    if cl <= EXPL | LEX and cl & LEX:
-        return "follow:dotdot-after-symlink-component-cleaned-lexically"
     if cl - {OVERDIR} <= EXPL and any("explainedByLinkMemoisation" in c for c in cl):
         return "follow:link-memoisation-drops-final-location"
     return None
@@ -89,11 +82,11 @@ def _mc(run):
         if inv + " is violated" not in r["out"]:
             raise Inconclusive("ResolverMC sanity configuration %s was not rejected: the model is vacuous" % cfg)
     if run.thorough:
-        # the second recorded finding needs a target like a/../b, which only the thorough scope has
-        r = run.tlc_mc("ResolverMC", "ResolverMC_lexwitness.cfg", label="sanity: the lexical-dot-dot finding must exist at model level (non-vacuity of the explanation test)",
+        # the pinned resolver cleaned paths as strings; the thorough scope has a target (a/../b) on which that must fail
+        r = run.tlc_mc("ResolverMC", "ResolverMC_lexical.cfg", label="sanity: the pinned resolver (request, link name and joined path cleaned as strings) must be rejected in the thorough scope",
                        expect_error=True, timeout=2400, xmx="12g", xss="256m")
-        if "NeverLexExplained is violated" not in r["out"]:
-            raise Inconclusive("ResolverMC_lexwitness.cfg was not rejected: the explanation test is vacuous")
+        if "ResultOK is violated" not in r["out"]:
+            raise Inconclusive("ResolverMC_lexical.cfg was not rejected: the thorough scope no longer distinguishes lexical cleaning")
 
 
 def check(run):
